@@ -2150,6 +2150,10 @@ func unmarshalTuple(info TypeInfo, data []byte, value interface{}) error {
 					return err
 				}
 			}
+			if v[i] == nil {
+				// a nil destination skips this element (Iter.Scan)
+				continue
+			}
 			err := Unmarshal(elem, p, v[i])
 			if err != nil {
 				return err
